@@ -486,7 +486,10 @@ class DeserializationMethodVisitor(
                         )
                     )
             object_constraints = constraints_validators(constraints)[dict]
-            all_alliases = set(alias_by_name.values())
+            # aggregate fields (flattened, properties) have no property of their own
+            all_alliases = {
+                alias_by_name[f.name] for f in fields if not f.is_aggregate
+            }
             constructor: Optional[Constructor] = None
             if is_typed_dict(cls):
                 constructor = NoConstructor(cls)
